@@ -12,6 +12,15 @@
 //   fam=O  a sequence of OBJECTS (struct Obj, not an index) + hand-written callbacks on objects
 //   fam=X / fam=Y  tapkee::embed(begin, end, k, d, f, params) called directly, with tapkee's eigen callbacks /
 //          with the counting callbacks (no chain)
+//   fam=P  tapkee's OWN callback classes attached DIRECTLY (precomputed_kernel_callback, precomputed_distance_callback over
+//          tables, eigen_features_callback; not wrapped in a counting callback): whatever a method does for these TYPES
+//          must be what it does for a hand-written callback returning the same values
+// ids=<i0,i1,...>  the DENOTED SEQUENCE: the request embeds samples i0, i1, ... of the data set (any length, repeated
+//          ids allowed, any order); absent = 0..N-1.  fam=M embeds the feature matrix whose columns are those samples;
+//          the index / object sequences of the other families denote the same samples; tables stay N x N.
+// cont=<vec|deque|stride>  the container kind of the sequence handed to tapkee (fam U with a full order, fam P):
+//          std::vector, a std::deque whose elements straddle two blocks, a custom random-access iterator over every
+//          second slot of an array (decoys in between): random access, NOT contiguous
 // order = the order in which withKernel/withDistance/withFeatures are attached (a string over K,D,F
 // without repetition, e.g. "FKD"); entry = range (embedRange(begin,end)) | using (embedUsing(container)).
 //
@@ -108,7 +117,9 @@ enum
 {
     FAM_E = 0,
     FAM_U = 1,
-    FAM_O = 2
+    FAM_O = 2,
+    FAM_P = 3, // tapkee's precomputed_* / eigen_features classes attached directly
+    FAM_UC = 4 // counting callbacks over a non-vector container (all three attached)
 };
 
 constexpr bool allowed(int fam, int mask)
@@ -116,7 +127,7 @@ constexpr bool allowed(int fam, int mask)
 #ifdef C13_NO_RAW
     // fallback build: without the chains over tapkee's own eigen callbacks (they have exactly one member
     // function each, so a library that routes a callback into the wrong slot does not compile with them)
-    if (fam == FAM_E)
+    if (fam == FAM_E || fam == FAM_P)
         return false;
 #endif
 #ifdef C13_NO_OBJ
@@ -192,6 +203,8 @@ struct Obj
 // iterator - begin) then reads the wrong sample even though the objects are integers
 static IndexType g_index_offset = 0;
 // every callback checks that what it is handed IS an element of the sequence given to tapkee (oracle on every call)
+// (when the request embeds a SUB-sequence of the data set -- ids= -- g_member says which samples are in it)
+static std::vector<char> g_member;
 static inline IndexType in_range(long i)
 {
     if (i < 0 || i >= (long)g_n)
@@ -199,6 +212,8 @@ static inline IndexType in_range(long i)
         g_foreign++;
         return 0;
     }
+    if (!g_member.empty() && !g_member[(size_t)i])
+        g_foreign++;
     return (IndexType)i;
 }
 // ... and PERMUTED (element i of the data is the integer sigma(i) + g_index_offset; g_inv = sigma^-1): the order of the
@@ -227,6 +242,149 @@ static inline IndexType index_of(const Obj& o)
         return 0;
     }
     return in_range((o.key - 1000) / 7);
+}
+
+// ------------------------------------------------------------------ random-access ranges that are NOT contiguous
+// tapkee's interface asks for "a random access iterator with no specific capabilities": &*begin + i need not be begin[i].
+// (a) every second slot of an array, decoys in the slots between
+template <class T> struct StrideIt
+{
+    typedef std::random_access_iterator_tag iterator_category;
+    typedef T value_type;
+    typedef std::ptrdiff_t difference_type;
+    typedef const T* pointer;
+    typedef const T& reference;
+    const T* p;
+    StrideIt() : p(nullptr)
+    {
+    }
+    explicit StrideIt(const T* q) : p(q)
+    {
+    }
+    reference operator*() const
+    {
+        return *p;
+    }
+    pointer operator->() const
+    {
+        return p;
+    }
+    reference operator[](difference_type n) const
+    {
+        return p[2 * n];
+    }
+    StrideIt& operator++()
+    {
+        p += 2;
+        return *this;
+    }
+    StrideIt operator++(int)
+    {
+        StrideIt t(*this);
+        p += 2;
+        return t;
+    }
+    StrideIt& operator--()
+    {
+        p -= 2;
+        return *this;
+    }
+    StrideIt operator--(int)
+    {
+        StrideIt t(*this);
+        p -= 2;
+        return t;
+    }
+    StrideIt& operator+=(difference_type n)
+    {
+        p += 2 * n;
+        return *this;
+    }
+    StrideIt& operator-=(difference_type n)
+    {
+        p -= 2 * n;
+        return *this;
+    }
+    friend StrideIt operator+(StrideIt a, difference_type n)
+    {
+        return a += n;
+    }
+    friend StrideIt operator+(difference_type n, StrideIt a)
+    {
+        return a += n;
+    }
+    friend StrideIt operator-(StrideIt a, difference_type n)
+    {
+        return a -= n;
+    }
+    friend difference_type operator-(const StrideIt& a, const StrideIt& b)
+    {
+        return (a.p - b.p) / 2;
+    }
+    friend bool operator==(const StrideIt& a, const StrideIt& b)
+    {
+        return a.p == b.p;
+    }
+    friend bool operator!=(const StrideIt& a, const StrideIt& b)
+    {
+        return a.p != b.p;
+    }
+    friend bool operator<(const StrideIt& a, const StrideIt& b)
+    {
+        return a.p < b.p;
+    }
+    friend bool operator>(const StrideIt& a, const StrideIt& b)
+    {
+        return a.p > b.p;
+    }
+    friend bool operator<=(const StrideIt& a, const StrideIt& b)
+    {
+        return a.p <= b.p;
+    }
+    friend bool operator>=(const StrideIt& a, const StrideIt& b)
+    {
+        return a.p >= b.p;
+    }
+};
+template <class T> struct StrideSeq
+{
+    typedef StrideIt<T> const_iterator;
+    typedef StrideIt<T> iterator;
+    typedef T value_type;
+    std::vector<T> store; // element i of the sequence is store[2 i]; store[2 i + 1] is a decoy
+    StrideSeq(const std::vector<T>& elems, const std::vector<T>& decoys) : store(2 * elems.size())
+    {
+        for (size_t i = 0; i < elems.size(); i++)
+        {
+            store[2 * i] = elems[i];
+            store[2 * i + 1] = decoys[i];
+        }
+    }
+    const_iterator begin() const
+    {
+        return const_iterator(store.data());
+    }
+    const_iterator end() const
+    {
+        return const_iterator(store.data() + store.size());
+    }
+    size_t size() const
+    {
+        return store.size() / 2;
+    }
+};
+// (b) a std::deque whose elements straddle two blocks whatever the block size: the second half is appended, then the first
+// half is prepended element by element (libstdc++ starts an empty deque at the beginning of a block, so the first
+// push_front opens the block before it)
+template <class T> std::deque<T> straddling_deque(const std::vector<T>& v)
+{
+    std::deque<T> d;
+    const size_t h = v.size() / 2;
+    for (size_t i = h; i < v.size(); i++)
+        d.push_back(v[i]);
+    for (size_t i = h; i-- > 0;)
+        d.push_front(v[i]);
+    return d;
 }
 
 // ------------------------------------------------------------------ value tables behind the callbacks
@@ -649,6 +807,7 @@ int main()
             g_n = N;
             g_ktab.clear();
             g_dtab.clear();
+            g_member.clear();
             X.resize(D, N);
             for (int i = 0; i < N; i++)
                 for (int j = 0; j < D; j++)
@@ -853,9 +1012,44 @@ int main()
         int wd = kv.count("wd") ? atoi(kv["wd"].c_str()) : 20;
         unsigned seed = (unsigned)atol(kv["seed"].c_str());
 
+        // the DENOTED SEQUENCE: which samples of the data set this request embeds, in which order (repeats allowed)
+        std::vector<IndexType> ids;
+        bool ids_ok = true;
+        if (kv.count("ids"))
+        {
+            std::istringstream is(kv["ids"]);
+            std::string tok;
+            while (std::getline(is, tok, ','))
+            {
+                char* endp = nullptr;
+                long v = strtol(tok.c_str(), &endp, 10);
+                if (tok.empty() || *endp != 0 || v < 0 || v >= N)
+                    ids_ok = false;
+                else
+                    ids.push_back((IndexType)v);
+            }
+        }
+        else
+            for (int i = 0; i < N; i++)
+                ids.push_back(i);
+        const std::string cont = kv.count("cont") ? kv["cont"] : std::string("vec");
+        if (!ids_ok || ids.empty() || ids.size() > 100000 || (cont != "vec" && cont != "deque" && cont != "stride"))
+        {
+            printf("C %ld\nR %ld BADCASE\n", id, id);
+            continue;
+        }
+        const int M = (int)ids.size();
+        g_member.clear();
+        if (kv.count("ids"))
+        {
+            g_member.assign(N, 0);
+            for (int j = 0; j < M; j++)
+                g_member[ids[j]] = 1;
+        }
+
         g_index_offset = (fam == "U" || fam == "Y") && kv.count("off") ? (IndexType)atoi(kv["off"].c_str()) : 0;
-        std::vector<IndexType> idx(N);
-        std::vector<Obj> objs(N);
+        std::vector<IndexType> idx(M);
+        std::vector<Obj> objs(M);
         g_inv.clear();
         std::vector<IndexType> sigma(N);
         for (int i = 0; i < N; i++)
@@ -872,11 +1066,11 @@ int main()
             for (int i = 0; i < N; i++)
                 g_inv[sigma[i]] = i;
         }
-        for (int i = 0; i < N; i++)
+        for (int j = 0; j < M; j++)
         {
-            idx[i] = sigma[i] + g_index_offset;
-            objs[i].key = 1000 + 7L * i;
-            objs[i].decoy = N - 1 - i;
+            idx[j] = sigma[ids[j]] + g_index_offset;
+            objs[j].key = 1000 + 7L * ids[j];
+            objs[j].decoy = N - 1 - ids[j];
         }
         Backing backing(X, mode, tables_by_hand);
 
@@ -896,7 +1090,16 @@ int main()
             {
                 if (!g_matrix_form)
                     throw not_built();
-                out = with(ps).embedUsing(X);
+                if (kv.count("ids"))
+                {
+                    // the feature-matrix form of the denoted sequence: one column per element of the sequence
+                    DenseMatrix Xs(X.rows(), M);
+                    for (int j = 0; j < M; j++)
+                        Xs.col(j) = X.col(ids[j]);
+                    out = with(ps).embedUsing(Xs);
+                }
+                else
+                    out = with(ps).embedUsing(X);
             }
             else if (fam == "E")
             {
@@ -938,7 +1141,56 @@ int main()
                 UCb<1, IndexType> dcb(&backing);
                 UCb<2, IndexType> fcb(&backing);
                 const std::vector<IndexType>& cidx = idx;
-                out = walk<FAM_U, 0>(with(ps), order.c_str(), kcb, dcb, fcb, cidx.begin(), cidx.end(), cidx, use_container);
+                if (cont == "vec")
+                    out = walk<FAM_U, 0>(with(ps), order.c_str(), kcb, dcb, fcb, cidx.begin(), cidx.end(), cidx, use_container);
+                else if constexpr (allowed(FAM_UC, 7))
+                {
+                    if (cont == "deque")
+                    {
+                        const std::deque<IndexType> dq = straddling_deque(idx);
+                        out = walk<FAM_UC, 0>(with(ps), order.c_str(), kcb, dcb, fcb, dq.begin(), dq.end(), dq, use_container);
+                    }
+                    else
+                    {
+                        // decoys: integers that denote no sample at all
+                        const StrideSeq<IndexType> sq(idx, std::vector<IndexType>(M, (IndexType)-7));
+                        out = walk<FAM_UC, 0>(with(ps), order.c_str(), kcb, dcb, fcb, sq.begin(), sq.end(), sq, use_container);
+                    }
+                }
+                else
+                    throw not_built();
+            }
+            else if (fam == "P")
+            {
+                // tapkee's own callback classes attached directly: a method that treats these TYPES specially must still
+                // produce what it produces for any other callback returning the same values
+                if constexpr (allowed(FAM_P, 7))
+                {
+                    if (mode != 2 && mode != 4)
+                        throw bad_order();
+                    const std::vector<IndexType>& cidx = idx; // (no shift, no permutation: these classes index their matrix)
+                    if (cont == "vec")
+                        out = walk<FAM_P, 0>(with(ps), order.c_str(), backing.pk, backing.pd, backing.ef, cidx.begin(), cidx.end(),
+                                             cidx, use_container);
+                    else if (cont == "deque")
+                    {
+                        const std::deque<IndexType> dq = straddling_deque(idx);
+                        out = walk<FAM_P, 0>(with(ps), order.c_str(), backing.pk, backing.pd, backing.ef, dq.begin(), dq.end(), dq,
+                                             use_container);
+                    }
+                    else
+                    {
+                        // decoys: valid ids of OTHER samples
+                        std::vector<IndexType> decoys(M);
+                        for (int j = 0; j < M; j++)
+                            decoys[j] = (ids[j] + 1) % N;
+                        const StrideSeq<IndexType> sq(idx, decoys);
+                        out = walk<FAM_P, 0>(with(ps), order.c_str(), backing.pk, backing.pd, backing.ef, sq.begin(), sq.end(), sq,
+                                             use_container);
+                    }
+                }
+                else
+                    throw not_built();
             }
             else if (fam == "O")
             {
